@@ -40,7 +40,7 @@ var hostileTexts = []string{
 
 func init() {
 	register("C01", func(c *engine.Ctx) {
-		c.Rule = "random schemas over all supported features x random option sets (--extra-imports, --only-models, --min-sized-ints, --tags, --capitalization, --struct-name-from-title), systematic feature pairs (constraint kind x position x nullable x default x format), and hostile free text (newlines, quotes, comment terminators, backslashes, %, 300-character words, U+2028, backticks) in descriptions and titles, non-ASCII names (combining marks, Indic vowel signs, CJK, Greek, Cyrillic) as property / definition / enum-member / title names, and distinct but structurally equal declarations (a string enum listing a member twice at property / definition / items position; two property paths with the same scope name, each an anyOf / allOf over the same $refs); every emitted file must be accepted by go/format (and be a fixed point of it), produce no 'could not be formatted' warning, parse, and compile against exactly its declared imports in a batch go build. A compile failure is tolerated only when the model predicted it AND its class is a listed known finding; the model's predicted import set and declaration summary are diffed against go/ast. Distinct = distinct (stream, option set, outcome, schema shape)."
+		c.Rule = "random schemas over all supported features x random option sets (--extra-imports, --only-models, --min-sized-ints, --tags, --capitalization, --struct-name-from-title), systematic feature pairs (constraint kind x position x nullable x default x format), and hostile free text (newlines, quotes, comment terminators, backslashes, %, 300-character words, U+2028, backticks) in descriptions and titles, every constraint keyword alone in a file (23 keywords x optional / required / definition / array item x option sets), non-ASCII names (combining marks, Indic vowel signs, CJK, Greek, Cyrillic) as property / definition / enum-member / title names, and distinct but structurally equal declarations (a string enum listing a member twice at property / definition / items position; two property paths with the same scope name, each an anyOf / allOf over the same $refs); every emitted file must be accepted by go/format (and be a fixed point of it), produce no 'could not be formatted' warning, parse, and compile against exactly its declared imports in a batch go build. A compile failure is tolerated only when the model predicted it AND its class is a listed known finding; the model's predicted import set and declaration summary are diffed against go/ast. Distinct = distinct (stream, option set, outcome, schema shape)."
 		c.Proofs([]string{"GJS.Props.C01"}, []string{
 			"GJS.Props.C01.addImport_imports", "GJS.Props.C01.addImport_mono", "GJS.Props.C01.addImport_idempotent",
 			"GJS.Props.C01.string_validator_imports_regexp", "GJS.Props.C01.numeric_validator_only_if_it_emits", "GJS.Props.C01.shadowName_differs",
@@ -124,6 +124,45 @@ func init() {
 			pc := baseCase("c01-shadow-names", schema, nil, rootName)
 			pc.Cfg.RootType = rootName
 			pcs = append(pcs, pc)
+		}
+		// (g) every constraint keyword ALONE in a file (the imports a validator needs must come with that validator, not
+		// with a neighbour): one property with exactly one keyword, optional / required / definition / array item,
+		// with and without --extra-imports, --only-models, --min-sized-ints
+		lone := map[string]sgen.M{
+			"minimum": {"type": "integer", "minimum": 1}, "maximum": {"type": "integer", "maximum": 9}, "exclusiveMinimum": {"type": "number", "exclusiveMinimum": 0},
+			"exclusiveMaximum": {"type": "number", "exclusiveMaximum": 10}, "exclusiveMinimum-int": {"type": "integer", "exclusiveMinimum": 0}, "exclusiveMaximum-int": {"type": "integer", "exclusiveMaximum": 10},
+			"minimum+xbool": {"type": "integer", "minimum": 1, "exclusiveMinimum": true}, "maximum+xbool": {"type": "number", "maximum": 1, "exclusiveMaximum": true},
+			"multipleOf-int": {"type": "integer", "multipleOf": 3}, "multipleOf-num": {"type": "number", "multipleOf": 0.5},
+			"minLength": {"type": "string", "minLength": 1}, "maxLength": {"type": "string", "maxLength": 5}, "pattern": {"type": "string", "pattern": "^a"},
+			"minItems": {"type": "array", "items": sgen.M{"type": "string"}, "minItems": 1}, "maxItems": {"type": "array", "items": sgen.M{"type": "integer"}, "maxItems": 3},
+			"enum": {"type": "string", "enum": []any{"a", "b"}}, "enum-mixed": {"enum": []any{1, "a"}}, "default": {"type": "integer", "default": 5}, "nullable": {"type": []any{"string", "null"}},
+			"null-type": {"type": "null"}, "format-date": {"type": "string", "format": "date"}, "format-ipv4": {"type": "string", "format": "ipv4"}, "additionalProperties": {"type": "object", "properties": sgen.M{"a": sgen.M{"type": "string"}}, "additionalProperties": sgen.M{"type": "integer"}},
+		}
+		for _, kn := range core.SortedKeys(lone) {
+			for _, pos := range []string{"optional", "required", "definition", "item"} {
+				var schema sgen.M
+				p := sgen.DeepCopy(lone[kn]).(sgen.M)
+				switch pos {
+				case "optional":
+					schema = sgen.M{"type": "object", "properties": sgen.M{"v": p}}
+				case "required":
+					schema = sgen.M{"type": "object", "properties": sgen.M{"v": p}, "required": []any{"v"}}
+				case "definition":
+					schema = sgen.M{"type": "object", "properties": sgen.M{"v": sgen.M{"$ref": "#/$defs/D"}}, "$defs": sgen.M{"D": p}}
+				case "item":
+					schema = sgen.M{"type": "object", "properties": sgen.M{"v": sgen.M{"type": "array", "items": p}}}
+				}
+				for oi, opt := range []string{"plain", "extra-imports", "only-models", "min-sized-ints"} {
+					if !c.Thorough() && oi != 0 && (len(pcs)+oi)%3 != 0 {
+						continue
+					}
+					pc := baseCase("c01-lone-keyword", schema, nil, kn, pos, opt)
+					pc.Cfg.ExtraImports = opt == "extra-imports"
+					pc.Cfg.OnlyModels = opt == "only-models"
+					pc.Cfg.MinSizedInts = opt == "min-sized-ints"
+					pcs = append(pcs, pc)
+				}
+			}
 		}
 		// (f) non-ASCII names whose runes satisfy the table hypotheses of C14.ident_valid (the model's generator covers
 		// ASCII names only: these are judged by the oracle alone): combining marks after letters, Indic vowel signs, CJK,
